@@ -31,6 +31,8 @@ pub struct Reference {
     pub smin_kept: f64,
     pub c_ref: DMatrix<f64>,
     pub w: Option<Vec<f64>>,
+    /// the weighted basis matrix is exactly diagonal (crafted scenarios): the solution is one division per coefficient
+    pub exact: bool,
 }
 
 /// `thr` is the configured threshold as the implementation must use it (absolute value, or
@@ -43,7 +45,7 @@ pub fn reference<T: Sc>(spec: &ModelSpec, alpha: &[T], y: &DMatrix<T>, w: Option
     let yw = refla::row_scale(wv.as_deref(), &mat_d(y));
     let m = phi.ncols();
     if !refla::all_finite(&phi_w) {
-        return Reference { phi_w, yw, svd: None, thr, kept: vec![], class: RankClass::NonFinite, kappa_kept: f64::INFINITY, smax: f64::NAN, smin_kept: f64::NAN, c_ref: DMatrix::zeros(m, y.ncols()), w: wv };
+        return Reference { phi_w, yw, svd: None, thr, kept: vec![], class: RankClass::NonFinite, kappa_kept: f64::INFINITY, smax: f64::NAN, smin_kept: f64::NAN, c_ref: DMatrix::zeros(m, y.ncols()), w: wv, exact };
     }
     let svd = refla::svd_jacobi(&phi_w);
     let smax = svd.smax();
@@ -75,7 +77,7 @@ pub fn reference<T: Sc>(spec: &ModelSpec, alpha: &[T], y: &DMatrix<T>, w: Option
         }
     }
     let c_ref = &svd.v * utb;
-    Reference { phi_w, yw, svd: Some(svd), thr, kept, class, kappa_kept, smax, smin_kept, c_ref, w: wv }
+    Reference { phi_w, yw, svd: Some(svd), thr, kept, class, kappa_kept, smax, smin_kept, c_ref, w: wv, exact }
 }
 
 pub struct Finding {
@@ -124,6 +126,20 @@ pub fn check_c01<T: Sc>(r: &Reference, obs: &Obs<T>, out: &mut Vec<Finding>, g: 
     }
     if !refla::all_finite(&r.yw) {
         return;
+    }
+    // crafted, exactly diagonal basis matrices: every coefficient is one exact division (or exactly zero when its singular
+    // value is truncated) - compared entry by entry, however small the singular value (the kappa-scaled bounds below cannot
+    // see a kept singular value of 1e-18 next to 1)
+    if r.exact && (r.class == RankClass::Full || r.class == RankClass::Truncated) {
+        for s in 0..c.ncols() {
+            for j in 0..m {
+                let (got, want) = (c[(j, s)], r.c_ref[(j, s)]);
+                if !((got - want).abs() <= 64.0 * eps * want.abs() + 1e-300) {
+                    out.push(f("C01", "not-least-squares-optimal", format!("rhs {}: coefficient {} of the exactly diagonal problem is {:e}, the (truncated) least-squares solution has {:e} (singular values {:?}, threshold {:e})", s, j, got, want, svd.s, r.thr)));
+                    return;
+                }
+            }
+        }
     }
     let k = 256.0 * (n.max(m) as f64);
     let phi_f = refla::fro(&r.phi_w);
